@@ -29,7 +29,7 @@ func init() {
 	mc.Register(&mc.Property{
 		ID:    "C09",
 		Level: "exploration",
-		Rule: "E1 bounded-exhaustive enumeration: sources (s,from,to) = every string of length ≤3 over a small byte alphabet, also behind stems of 7/8/9 (thorough: 15/16/17) bytes, × every 0 ≤ from ≤ to ≤ 8·len (stemmed: from in {0,8}, to around the stem end and in the tail); per source Len(New(..)) and Cmp with the canonical encoding of the same bit string must be 0; Cmp on ALL ordered pairs of canonical encodings (one per distinct bit string); " +
+		Rule: "E1 bounded-exhaustive enumeration: sources (s,from,to) = every string of length ≤3 over a small byte alphabet, also behind stems of 7/8/9 (thorough: 15/16/17) bytes in 4 variants (first byte 's' / 0x00 / 0xff, eighth byte 0x80), × every 0 ≤ from ≤ to ≤ 8·len (stemmed: from in {0,8}, to around the stem end and in the tail); per source Len(New(..)) and Cmp with the canonical encoding of the same bit string must be 0; Cmp on ALL ordered pairs of canonical encodings (one per distinct bit string); " +
 			"CmpUpto and StrCmpUpto (from a fixed alphabet of call frames, after poisoning the dead stack with 0x00 and 0xff) on plain strings × all canonical encodings. Oracle: Go string comparison of '0'/'1' renderings (lexicographic, proper prefix first). A case is one call; non-trivial when both bit strings are non-empty.",
 		Assumptions: []string{
 			"byte values outside the alphabet and longer strings are not enumerated; lengths straddle the 8-byte fast-path switch through the stems",
@@ -101,6 +101,31 @@ func c09Stem(n int) string {
 	return base[:n]
 }
 
+// c09StemV is stem variant v: the stems differ in their FIRST byte (0x00 / 0xff
+// against 's': differences of 128 and more at the most significant end of an
+// 8-byte word) and in the last byte of the first 8-byte word, so that pairs of
+// long strings differ inside, at the end of and after their first word.
+const c09StemVariants = 4
+
+func c09StemV(n, v int) string {
+	b := []byte(c09Stem(n))
+	switch v {
+	case 1:
+		if n > 0 {
+			b[0] = 0x00
+		}
+	case 2:
+		if n > 0 {
+			b[0] = 0xff
+		}
+	case 3:
+		if n > 7 {
+			b[7] = 0x80
+		}
+	}
+	return string(b)
+}
+
 // c09Sources lists the declared sources in simplest-first order.
 func c09Sources(c *mc.Ctx) []c09Src {
 	alpha := []byte{0x00, 0x01, 0x7f, 0x80, 0xff, 'a'}
@@ -120,15 +145,22 @@ func c09Sources(c *mc.Ctx) []c09Src {
 		}
 	}
 	short := gen.Strings(alpha, 2)
+	seen := map[string]bool{}
 	for _, st := range stems {
-		stem := c09Stem(st)
-		for _, t := range short {
-			s := stem + t
-			n := int32(8 * len(s))
-			for _, from := range []int32{0, 8} {
-				for to := int32(8*st - 9); to <= n; to++ {
-					if to >= from {
-						out = append(out, c09Src{gen.Bytes(s), from, to})
+		for v := 0; v < c09StemVariants; v++ {
+			stem := c09StemV(st, v)
+			if seen[stem] {
+				continue
+			}
+			seen[stem] = true
+			for _, t := range short {
+				s := stem + t
+				n := int32(8 * len(s))
+				for _, from := range []int32{0, 8} {
+					for to := int32(8*st - 9); to <= n; to++ {
+						if to >= from {
+							out = append(out, c09Src{gen.Bytes(s), from, to})
+						}
 					}
 				}
 			}
@@ -144,9 +176,20 @@ func c09Plains(c *mc.Ctx) []string {
 		stems = []int{0, 6, 7, 8, 9, 15, 16, 17}
 	}
 	var out []string
+	seen := map[string]bool{}
 	for _, st := range stems {
-		for _, t := range gen.Strings(alpha, 2) {
-			out = append(out, c09Stem(st)+t)
+		for v := 0; v < c09StemVariants; v++ {
+			stem := c09StemV(st, v)
+			if seen[stem] && st > 0 {
+				continue
+			}
+			if st == 0 && v > 0 {
+				continue
+			}
+			seen[stem] = true
+			for _, t := range gen.Strings(alpha, 2) {
+				out = append(out, stem+t)
+			}
 		}
 	}
 	return out
